@@ -55,6 +55,24 @@ theorem getNum_float (b : Nat) (h : finiteBits b = true) :
 theorem getNum_str (s : Bytes) : getNumberRecDte (SVal.str s).enc = .ok none := by
   simp [SVal.enc, SVal.toTlv, encTLV, getNumberRecDte, tags]
 
+theorem numOfStr_nil : numOfStr? [] = none := by decide
+
+/-- the string branch of `fopOnNumber` on a record the writer produced for the string `s` -/
+theorem strRecNum_str (rnd : Rat → Rat) (s : Bytes) (hs : s.length < 65536) :
+    strRecNum? rnd (SVal.str s).enc = (numOfStr? s).map (fun a => RecNum.float (rnd a)) := by
+  have hl : s.length % 65536 = s.length := Nat.mod_eq_of_lt hs
+  cases s with
+  | nil => simp [SVal.enc, SVal.toTlv, encTLV, leN, strRecNum?, numOfStr_nil]
+  | cons c rest =>
+    simp only [SVal.enc, SVal.toTlv, encTLV, hl, List.take_length, leN]
+    simp [strRecNum?]
+
+theorem strRecNum_bool (rnd : Rat → Rat) (b : Bool) : strRecNum? rnd (SVal.bool b).enc = none := by
+  simp [SVal.enc, SVal.toTlv, encTLV, strRecNum?]
+
+theorem strRecNum_backfill (rnd : Rat → Rat) : strRecNum? rnd SVal.backfill.enc = none := by
+  simp [SVal.enc, SVal.toTlv, encTLV, strRecNum?]
+
 theorem getNum_bool (b : Bool) : getNumberRecDte (SVal.bool b).enc = .ok none := by
   simp [SVal.enc, SVal.toTlv, encTLV, getNumberRecDte, tags]
 
